@@ -19,7 +19,7 @@ def skipWs : List Char → List Char
   | [] => []
   | c :: cs => if isWs c then skipWs cs else c :: cs
 
-def isDigit (c : Char) : Bool := 48 ≤ c.toNat && c.toNat ≤ 57
+def isDigit (c : Char) : Bool := c.isDigit
 
 def hexVal (c : Char) : Option Nat :=
   let n := c.toNat
@@ -94,25 +94,24 @@ def pFrac (s : List Char) : Option (List Char × List Char) :=
     | (d, r') => some ('.' :: d, r')
   | _ => some ([], s)
 
+/-- an optional sign in front of the exponent digits -/
+def splitSign : List Char → List Char × List Char
+  | '+' :: r1 => (['+'], r1)
+  | '-' :: r1 => (['-'], r1)
+  | r => ([], r)
+
 def pExp (s : List Char) : Option (List Char × List Char) :=
   match s with
   | e :: r =>
-    if e = 'e' || e = 'E' then
-      let (sign, r1) := match r with
-        | '+' :: r1 => (['+'], r1)
-        | '-' :: r1 => (['-'], r1)
-        | _ => ([], r)
-      match takeDigits r1 with
+    if e = 'e' ∨ e = 'E' then
+      match takeDigits (splitSign r).2 with
       | ([], _) => some ([], s)      -- not an exponent: the number ends before `e`
-      | (d, r2) => some (e :: sign ++ d, r2)
+      | (d, r2) => some (e :: (splitSign r).1 ++ d, r2)
     else some ([], s)
   | [] => some ([], s)
 
-/-- a number starting at `s` (first character `-` or a digit) -/
-def pNumber (s : List Char) : Option (JVal × List Char) :=
-  let (neg, s1) := match s with
-    | '-' :: r => (true, r)
-    | _ => (false, s)
+/-- the digits, fraction and exponent of a number whose sign has been read -/
+def pUnsigned (neg : Bool) (s1 : List Char) : Option (JVal × List Char) :=
   match pIntPart s1 with
   | none => none
   | some (ip, r1) =>
@@ -126,6 +125,12 @@ def pNumber (s : List Char) : Option (JVal × List Char) :=
           let n := Nat.ofDigitChars 10 ip 0
           some (.int (if neg then -(n : Int) else n), r3)
         else some (.float (String.ofList ((if neg then ['-'] else []) ++ ip ++ fr ++ ex)), r3)
+
+/-- a number starting at `s` (first character `-` or a digit) -/
+def pNumber (s : List Char) : Option (JVal × List Char) :=
+  match s with
+  | '-' :: r => pUnsigned true r
+  | _ => pUnsigned false s
 
 def stripPrefix (p : List Char) (s : List Char) : Option (List Char) :=
   if p.isPrefixOf s then some (s.drop p.length) else none
